@@ -103,7 +103,10 @@ TSkip == /\ l <= Len(Trace)
          /\ l' = NextBegin
          /\ UNCHANGED <<vars, t0>>
 
-TraceSpec == TraceInit /\ [][TraceNext \/ TSkip]_<<vars, t0, l>>
+\* A scenario is accepted iff SOME branch of the specification consumes it up to its End line (where logged
+\* arguments leave a choice the branches that guessed wrong die on the way and are reported by TSkip, too):
+SegOk == (l <= Len(Trace) /\ Trace[l].ev = "End") => PrintT(<<"TRACE_SEGMENT_OK", l>>)
+TraceSpec == TraceInit /\ [][(TraceNext /\ SegOk) \/ TSkip]_<<vars, t0, l>>
 
 \* diagnosis variant: only the unexplained line is skipped (Parse lines do not
 \* depend on each other, a rejected Prop line ends its run), so that one run
